@@ -152,6 +152,20 @@ func TestC11_Nesting(t *testing.T) {
 	}
 }
 
+// TestC11_LongTail: inputs far longer than the number of steps their (failing) parse needs.
+func TestC11_LongTail(t *testing.T) {
+	r := rec(t, "C11", c11Rule)
+	for _, in := range []string{
+		"foo == 1 " + strings.Repeat("x", 2000), strings.Repeat(")", 1000), "a == 1 )" + strings.Repeat(" ", 5000), "a == 1 and" + strings.Repeat("\n", 3000) + "#",
+		"\"unterminated" + strings.Repeat("y", 4000), "a ==" + strings.Repeat(" ", 3000) + "1", strings.Repeat("a == 1 or ", 300) + "a ==", "x" + strings.Repeat(".y", 1500) + " == 1",
+		"1" + strings.Repeat("0", 3000) + " in", "a == 1" + strings.Repeat("\x00", 1200),
+	} {
+		N, feasible, nb := c11Sweep(t, "TestC11_Nesting", []byte(in))
+		r.Case(in, true, map[string]interface{}{"input": clip(in, 60), "length": len(in), "N": N, "feasible": feasible, "budgets": nb}, fmt.Sprintf("N<len:%v", N < uint64(len(in))))
+		r.Count("budget-evaluations", int64(nb))
+	}
+}
+
 func TestC11_Random(t *testing.T) {
 	r := rec(t, "C11", c11Rule)
 	rapid.Check(t, func(t *rapid.T) {
